@@ -380,6 +380,17 @@ class GenElem(Elem):
             return v
         if short == "tensordot":
             return ("CONTRACT", args[0], args[1], args[2] if len(args) > 2 else None)
+        if short == "einsum" and len(e.args) == 3 and isinstance(e.args[0], ast.Constant) and isinstance(e.args[0].value, str) and "->" in e.args[0].value:
+            spec = e.args[0].value.replace(" ", "")
+            ins, out_ = spec.split("->")
+            sa, sb = ins.split(",")
+            summed = [ch for ch in sa.replace("...", "") if ch in sb and ch not in out_]
+            if len(summed) == 1 and "..." not in sa[: sa.index(summed[0])] and "..." not in sb[: sb.index(summed[0])]:
+                # a contraction of one axis of each operand, like tensordot(a, b, (i, j)); free axes: a's, then b's
+                free = [ch for ch in sa.replace("...", "") if ch != summed[0]] + [ch for ch in sb.replace("...", "") if ch != summed[0]]
+                if out_.replace("...", "") == "".join(free):
+                    return ("CONTRACT", args[1], args[2], (sa.index(summed[0]), sb.index(summed[0])))
+            self.err(f"einsum '{spec}' is not a single-axis contraction in tensordot order", e)
         if isinstance(e.func, ast.Attribute) and not (d and d.split(".")[0] in ("np", "numpy", "scipy")):
             recv = self.expr(e.func.value)
             if e.func.attr in ("reshape", "squeeze", "copy", "astype"):
